@@ -15,7 +15,13 @@ class IntPiece:
 class PieceStr:
     def __init__(self, parts):
         out = []
+        flat = []
         for p in parts:
+            if isinstance(p, PieceStr):
+                flat.extend(p.parts)
+            else:
+                flat.append(p)
+        for p in flat:
             if isinstance(p, str):
                 if p == "":
                     continue
@@ -29,7 +35,7 @@ class PieceStr:
         return "PieceStr(%r)" % (self.parts,)
 
     def concrete(self):
-        if all(isinstance(p, str) or isinstance(p.v, int) for p in self.parts):
+        if all(isinstance(p, str) or (isinstance(p, IntPiece) and isinstance(p.v, int)) for p in self.parts):
             return "".join(p if isinstance(p, str) else str(p.v) for p in self.parts)
         return None
 
@@ -68,8 +74,9 @@ class PieceStr:
     def pyvc_binop(self, I, op, other, reflected):
         if op != "Add":
             raise Unsupported("operator %s on symbolic string" % op)
+        from .regex import RegStr
         o = other.parts if isinstance(other, PieceStr) else [other]
-        if not all(isinstance(x, (str, IntPiece)) for x in o):
+        if not all(isinstance(x, (str, IntPiece, RegStr)) for x in o):
             raise Unsupported("concatenation of symbolic string with %s" % type(other).__name__)
         return PieceStr(o + self.parts if reflected else self.parts + o)
 
@@ -79,14 +86,28 @@ class PieceStr:
             def rep(I, a, b):
                 if not (isinstance(a, str) and isinstance(b, str)) or any(ch.isdigit() for ch in a):
                     raise Unsupported("replace on symbolic string")
+                from .regex import RegStr, included, lang_of
+                z3 = core.z3
+                for p in self.parts:
+                    if isinstance(p, RegStr):       # a token is unaffected only if none of its strings contains `a`
+                        ok, _ = included(p.lang, z3.Complement(z3.Concat(z3.Full(z3.ReSort(z3.StringSort())), z3.Re(a), z3.Full(z3.ReSort(z3.StringSort())))))
+                        if ok is not True:
+                            raise Unsupported("replace(%r) on a token that may contain it" % a)
                 return PieceStr([p.replace(a, b) if isinstance(p, str) else p for p in self.parts])
             return Builtin("str.replace", rep)
         if name == "split":
             def split(I, sep=None):
                 if not isinstance(sep, str) or len(sep) != 1 or sep.isdigit():
                     raise Unsupported("split on symbolic string")
+                from .regex import RegStr, included
+                z3 = core.z3
+                full = z3.Full(z3.ReSort(z3.StringSort()))
                 groups, cur = [], []
                 for p in self.parts:
+                    if isinstance(p, RegStr):
+                        ok, _ = included(p.lang, z3.Complement(z3.Concat(full, z3.Re(sep), full)))
+                        if ok is not True:
+                            return _split_unknown(self, sep)
                     if isinstance(p, str):
                         bits = p.split(sep)
                         cur.append(bits[0])
@@ -100,9 +121,49 @@ class PieceStr:
                 for g in groups:
                     ps = PieceStr(g)
                     c = ps.concrete()
-                    res.append(c if c is not None else ps)
+                    if c is None and len(ps.parts) == 1 and not isinstance(ps.parts[0], (str, IntPiece)):
+                        res.append(ps.parts[0])
+                    else:
+                        res.append(c if c is not None else ps)
                 return res
             return Builtin("str.split", split)
         if name in ("strip", "lower", "upper"):
             return Builtin("str." + name, lambda I: self)
         raise Unsupported("method %s on symbolic string" % name)
+
+
+class _SplitUnknown:
+    """split() of a string whose separator positions are not structurally known: the number of fields is at
+    least 1 + (number of separators every string of the language is guaranteed to contain)"""
+
+    def __init__(self, src, sep):
+        from .regex import included, lang_of
+        z3 = core.z3
+        full = z3.Full(z3.ReSort(z3.StringSort()))
+        L = lang_of(src)
+        self.min_fields = 1
+        need = full
+        for k in range(1, 6):
+            need = z3.Concat(need, z3.Re(sep), full)
+            ok, _ = included(L, need)
+            if ok is True:
+                self.min_fields = k + 1
+            else:
+                break
+
+    def pyvc_getitem(self, I, k):
+        from .regex import RegStr
+        if not isinstance(k, int) or k < 0:
+            raise Unsupported("index into split() of an unstructured string")
+        if k < self.min_fields:
+            return RegStr("field%d" % k, core.z3.Full(core.z3.ReSort(core.z3.StringSort())))
+        if core.CUR.choose(2) == 0:
+            raise PyExc("IndexError", "list index out of range")
+        return RegStr("field%d" % k, core.z3.Full(core.z3.ReSort(core.z3.StringSort())))
+
+    def pyvc_len(self, I):
+        raise Unsupported("len of split() of an unstructured string")
+
+
+def _split_unknown(src, sep):
+    return _SplitUnknown(src, sep)
